@@ -7,3 +7,7 @@ if ! /venv/bin/python -c "import hypothesis" 2>/dev/null; then
 fi
 /venv/bin/python -c "import hypothesis, fontTools, defcon, ufoLib2; print('setup ok: hypothesis', hypothesis.__version__)"
 mkdir -p out evidence
+# coverage-guided phase of the thorough tier: atheris next to the repository's packages (offline wheelhouse); optional - the phase reports itself skipped without it
+if ! PYTHONPATH="$PWD/.deps" /venv/bin/python -c "import atheris" 2>/dev/null; then
+  /venv/bin/pip install -q --no-index --find-links /opt/veriftools/wheels --target "$PWD/.deps" atheris || echo "setup: atheris not installed (coverage-guided phase will be skipped)"
+fi
